@@ -265,6 +265,10 @@ impl PassManager {
     }
 
     fn actually_run(&mut self, ir: &mut Context, pass: &'static str) -> Result<bool, IrError> {
+        #[cfg(fuellabs_sway_verif)]
+        if verif_hooks::is_skipped(pass) {
+            return Ok(false);
+        }
         let mut modified = false;
 
         fn run_module_pass(
@@ -619,4 +623,20 @@ pub fn insert_after_each(pg: PassGroup, pass: &'static str) -> PassGroup {
     }
 
     PassGroup(insert_after_each_rec(pg, pass))
+}
+
+/// Verification hook (only with `--cfg fuellabs_sway_verif`): passes named in the calling
+/// thread's skip list are not run, so that a harness can attribute a behaviour to one pass.
+#[cfg(fuellabs_sway_verif)]
+pub mod verif_hooks {
+    use std::cell::RefCell;
+    thread_local! {
+        static SKIP_PASSES: RefCell<Vec<String>> = const { RefCell::new(Vec::new()) };
+    }
+    pub fn set_skipped_passes(names: &[&str]) {
+        SKIP_PASSES.with(|s| *s.borrow_mut() = names.iter().map(|n| n.to_string()).collect());
+    }
+    pub fn is_skipped(pass: &str) -> bool {
+        SKIP_PASSES.with(|s| s.borrow().iter().any(|n| n == pass))
+    }
 }
